@@ -64,6 +64,9 @@ type ChanObj struct {
 	Cap    int
 	Closed bool
 	ID     int
+	// Consumed: a concurrent consumer reads this channel (vsym.Consumed): a send on the full channel does not block,
+	// the oldest message is handed to the consumer
+	Consumed bool
 }
 type ChanV struct{ Ch *ChanObj }
 
